@@ -155,6 +155,7 @@ func c15Sync(stream string, cuts uint32, bufsize, behaviour int) (got []string, 
 	if len(stream) > 0 {
 		chunks = append(chunks, stream[last:])
 	}
+	orig := append([]string{}, chunks...)
 	rd = &chunkReader{chunks: chunks, zeroAt: -1}
 	switch behaviour {
 	case 1:
@@ -162,9 +163,15 @@ func c15Sync(stream string, cuts uint32, bufsize, behaviour int) (got []string, 
 	case 2:
 		rd.eofWith = true
 	}
-	lines := make(chan *logline.LogLine, len(stream)+2)
+	lines := make(chan *logline.LogLine, 2*len(stream)+4)
 	lr := logstream.NewLineReader("src", lines, rd, bufsize, func() {})
 	err = c15Drive(lr, context.Background())
+	if behaviour == 3 && err == nil {
+		// the source ends, and the same reader then goes on with a source that starts over (what the file
+		// stream does after a truncation): the same bytes again must give the same lines again
+		rd.chunks, rd.i = orig, 0
+		err = c15Drive(lr, context.Background())
+	}
 	close(lines)
 	for l := range lines {
 		got = append(got, l.Line)
@@ -205,7 +212,11 @@ func propC15(e *Env) {
 				}
 				for cuts := uint32(0); cuts < nch && !e.Failed(); cuts++ {
 					for _, bs := range bufsizes {
-						for beh := 0; beh < 3; beh++ {
+						for beh := 0; beh < 4; beh++ {
+							want := want
+							if beh == 3 {
+								want = append(append([]string{}, want...), want...)
+							}
 							got, rd, err := c15Sync(stream, cuts, bs, beh)
 							total++
 							if total&0xffff == 0 {
@@ -225,6 +236,9 @@ func propC15(e *Env) {
 								e.R.faultAdd("data_with_eof", 1)
 							}
 							e.R.faultAdd("short_read", rd.shortCuts)
+							if beh == 3 {
+								e.R.faultAdd("source_restarts_after_end", 1)
+							}
 							if cl, detail := c15Classify(got, want); cl != "" {
 								e.Fail(cl, "stream %q chunk-cuts %b bufsize %d behaviour %d: %s", stream, cuts, bs, beh, detail)
 								break
